@@ -2158,6 +2158,107 @@ def _while_true_break(fn: ast.FunctionDef) -> None:
                 n.body = n.body[1:]
 
 
+def _rotate_loops(fn: ast.FunctionDef) -> None:
+    """Two spellings of a worklist loop whose expansion step has been rotated to the top of an outer ``while True``:
+
+    B   ``while True: E; while W: ...; break(s)  else: break``   ->   ``E; while W: ... (each break -> E; continue)``
+        (after a ``break`` of the inner loop control returns to the top of the outer loop, runs E and re-enters the inner loop: the same as
+        running E and carrying on; exhaustion of the inner loop is the only way out)
+    A   ``while True: if f: E; if not W: break; BODY``           ->   ``if f: E; while W: BODY; if f: E``
+        (BODY has no break / continue; the guard and E are re-evaluated with the values BODY has just assigned)
+
+    E must not contain break / continue / return / yield-free is not required (E is plain statements: assignments, loops that fill W)."""
+
+    def has_jump(stmts: list[ast.stmt], kinds: tuple) -> bool:
+        def rec(b: list[ast.stmt], in_loop: bool) -> bool:
+            for st in b:
+                if isinstance(st, (ast.FunctionDef, ast.ClassDef)):
+                    continue
+                if isinstance(st, ast.Return) and ast.Return in kinds:
+                    return True
+                if isinstance(st, (ast.Break, ast.Continue)) and type(st) in kinds and not in_loop:
+                    return True
+                if isinstance(st, (ast.For, ast.While)):
+                    if rec(st.body, True) or rec(st.orelse, in_loop):
+                        return True
+                    continue
+                for sub in _blocks(st):
+                    if rec(sub, in_loop):
+                        return True
+            return False
+        return rec(stmts, False)
+
+    def replace_breaks(block: list[ast.stmt], repl: list[ast.stmt]) -> bool:
+        """Replace the breaks of the loop that owns ``block``; False when one of them is not the last statement of its block."""
+        ok = True
+        i = 0
+        while i < len(block):
+            st = block[i]
+            if isinstance(st, ast.Break):
+                if i != len(block) - 1:
+                    ok = False
+                block[i:i + 1] = copy.deepcopy(repl) + [ast.copy_location(ast.Continue(), st)]
+                i += len(repl) + 1
+                continue
+            if isinstance(st, (ast.For, ast.While)):
+                ok = replace_breaks(st.orelse, repl) and ok
+            elif not isinstance(st, (ast.FunctionDef, ast.ClassDef)):
+                for sub in _blocks(st):
+                    ok = replace_breaks(sub, repl) and ok
+            i += 1
+        return ok
+
+    def rewrite(block: list[ast.stmt]) -> None:
+        i = 0
+        while i < len(block):
+            st = block[i]
+            if isinstance(st, ast.While) and isinstance(st.test, ast.Constant) and st.test.value is True and not st.orelse and len(st.body) >= 2:
+                k_in = next((k for k in range(len(st.body) - 1, -1, -1) if isinstance(st.body[k], ast.While)), len(st.body) - 1)
+                inner = st.body[k_in]
+                E = st.body[:k_in]
+                TAIL = st.body[k_in + 1:]  # (runs after a break of the inner loop, before the outer loop starts over)
+                # --- B
+                if isinstance(inner, ast.While) and len(inner.orelse) == 1 and isinstance(inner.orelse[0], ast.Break) and E \
+                        and not has_jump(E + TAIL, (ast.Break, ast.Continue, ast.Return)) \
+                        and not has_jump(inner.body, (ast.Continue, ast.Return)) and not any(isinstance(x, (ast.Yield, ast.YieldFrom)) for e_ in E + TAIL for x in ast.walk(e_)):
+                    body = copy.deepcopy(inner.body)
+                    # temporaries of E (bound in E, read nowhere else) get names of their own in the copy that moves into the loop:
+                    # every local keeps a single definition, as the later normal forms expect
+                    in_E = {id(x) for e_ in E for x in ast.walk(e_)}
+                    bound = {x.id for e_ in E for x in ast.walk(e_) if isinstance(x, ast.Name) and isinstance(x.ctx, ast.Store)}
+                    elsewhere = {x.id for x in ast.walk(fn) if isinstance(x, ast.Name) and id(x) not in in_E}
+                    temps = bound - elsewhere
+                    E2 = copy.deepcopy(E)
+                    for e_ in E2:
+                        for x in ast.walk(e_):
+                            if isinstance(x, ast.Name) and x.id in temps:
+                                x.id = x.id + "__rot"
+                    if replace_breaks(body, TAIL + E2):
+                        new_loop = ast.copy_location(ast.While(test=inner.test, body=body, orelse=[]), st)
+                        block[i:i + 1] = copy.deepcopy(E) + [new_loop]
+                        ast.fix_missing_locations(new_loop)
+                        i += len(E)
+                        continue
+                # --- A
+                head = st.body[0]
+                if isinstance(head, ast.If) and not head.orelse and len(st.body) >= 3 and isinstance(st.body[1], ast.If) and not st.body[1].orelse \
+                        and len(st.body[1].body) == 1 and isinstance(st.body[1].body[0], ast.Break) and not has_jump(head.body, (ast.Break, ast.Continue, ast.Return)) \
+                        and not has_jump(st.body[2:], (ast.Break, ast.Continue, ast.Return)) \
+                        and not any(isinstance(x, (ast.Yield, ast.YieldFrom, ast.NamedExpr)) for x in ast.walk(head)):
+                    t = st.body[1].test
+                    test = t.operand if isinstance(t, ast.UnaryOp) and isinstance(t.op, ast.Not) else ast.copy_location(ast.UnaryOp(op=ast.Not(), operand=t), t)
+                    new_loop = ast.copy_location(ast.While(test=test, body=copy.deepcopy(st.body[2:]) + [copy.deepcopy(head)], orelse=[]), st)
+                    block[i:i + 1] = [copy.deepcopy(head), new_loop]
+                    ast.fix_missing_locations(new_loop)
+                    i += 1
+                    continue
+            for sub in _blocks(st):
+                rewrite(sub)
+            i += 1
+
+    rewrite(fn.body)
+
+
 def _flatten_else(fn: ast.FunctionDef) -> None:
     """``if c: ...; return/raise/continue/break`` ``else: rest``  ->  guard clause followed by ``rest`` (same block)."""
 
@@ -2487,6 +2588,9 @@ def _param_copies(fn: ast.FunctionDef) -> None:
         first = next((n for n in ast.walk(ast.Module(body=fn.body, type_ignores=[])) if isinstance(n, ast.Name) and n.id == x), None)
         if first is not st.targets[0]:
             continue
+        # a copy that is re-bound later is a cursor, not another name of the parameter (the rules read `self` as the receiver throughout)
+        if any(isinstance(n, ast.Name) and n.id == x and isinstance(n.ctx, (ast.Store, ast.Del)) and n is not st.targets[0] for n in ast.walk(fn)):
+            continue
         fn.body.remove(st)
         for n in ast.walk(fn):
             if isinstance(n, ast.Name) and n.id == x:
@@ -2609,6 +2713,22 @@ def _drop_pass(block: list[ast.stmt]) -> None:
         block[:] = keep or block[:1]
 
 
+def _iadd_to_extend(fn: ast.FunctionDef) -> None:
+    """``W += E`` for a local that is also popped from (hence a list / deque, for which += is in-place concatenation) is ``W.extend(E)``."""
+    popped = {n.func.value.id for n in ast.walk(fn) if isinstance(n, ast.Call) and isinstance(n.func, ast.Attribute) and n.func.attr in ("pop", "popleft")
+              and isinstance(n.func.value, ast.Name)}
+    if not popped:
+        return
+
+    class T(ast.NodeTransformer):
+        def visit_AugAssign(self, n: ast.AugAssign) -> ast.AST:
+            if isinstance(n.op, ast.Add) and isinstance(n.target, ast.Name) and n.target.id in popped:
+                call = ast.Call(func=ast.Attribute(value=ast.Name(id=n.target.id, ctx=ast.Load()), attr="extend", ctx=ast.Load()), args=[n.value], keywords=[])
+                return ast.fix_missing_locations(ast.copy_location(ast.Expr(value=call), n))
+            return n
+    fn.body = [T().visit(st) for st in fn.body]
+
+
 def _helper_refs_to_lambdas(fn: ast.FunctionDef, inliner: "HelperInliner") -> None:
     """``key=_by_name`` / ``map(_f, xs)`` with ``_f`` a private module-level function of later origin whose body is one ``return E``:
     the reference becomes ``lambda <params>: E`` (what the call sites of the audited tree spell out)."""
@@ -2652,6 +2772,8 @@ def normalize(fn: ast.FunctionDef, cls: ast.ClassDef | None, qual: str, inliner:
     new = _StripCasts().visit(new)
     if inliner is not None:
         _helper_refs_to_lambdas(new, inliner)
+    _iadd_to_extend(new)
+    _rotate_loops(new)
     if inliner is not None and inliner.new_consts:
         shadow = {n.id for n in ast.walk(new) if isinstance(n, ast.Name) and isinstance(n.ctx, ast.Store)} | {a.arg for a in ast.walk(new) if isinstance(a, ast.arg)}
         consts = {k: v for k, v in inliner.new_consts.items() if k not in shadow}
